@@ -36,7 +36,10 @@ REQUIRED = ["entries_injective", "einv_fresh", "bit_set_get", "bit_total", "serv
             "validated_credential_entries_wellformed", "verify_wire_relevant_entries_have_index", "malformed_status_refused_before_revocation_logic",
             "fact_default_validator_chain", "fact_validate_credential_status_chain",
             # REPROCESS path (NutsProofs.Props.C11Reprocess)
-            "reprocess_same_as_delivery", "reprocessed_revocation_effective", "reprocess_other_content_is_inert", "fact_reprocess_callback_switch"]
+            "reprocess_same_as_delivery", "reprocessed_revocation_effective", "reprocess_other_content_is_inert", "fact_reprocess_callback_switch",
+            # vcr.Resolve / vcr.Search (NutsProofs.Props.C11Resolve)
+            "verify_trust_at_refines", "resolve_never_presents_revoked_as_valid", "resolve_valid_only_if_not_revoked", "resolve_revoked_says_revoked",
+            "search_omits_revoked", "resolve_after_revocation_in_history", "fact_resolve_and_search_sites"]
 
 ENTRY_RE = re.compile(r"(n\d+/\S+/\d+) (\S+) wf=(\w+)")
 
@@ -472,6 +475,7 @@ def aoracle(ops, impl):
     stats = Counter()
     bad = []
     stored = set()
+    creds, trusted = {}, set()
 
     def report(sig, what, i):
         if sig not in [b[0] for b in bad]:
@@ -490,6 +494,45 @@ def aoracle(ops, impl):
                 report("C11:ambassador-wiring:revocation-events-do-not-reach-RegisterRevocation-or-others-do", line[:300], i)
         if kind == "areset":
             stored = set()
+            creds, trusted = {}, set()
+        elif kind == "astore":
+            if line == "astore ok":
+                creds[op["id"]] = bool(op.get("exp"))
+            elif line != "astore exists":
+                report("C11:credential-store-failed", line[:200], i)
+        elif kind == "atrust":
+            trusted.add(op["issuer"])
+        elif kind in ("aresolve", "asearch"):
+            # the node's own answers (vcr.Resolve / vcr.Search) for credentials of its store, asked about resolveTime = now+at min
+            at = op.get("at", 0)
+
+            def valid_at(cid):
+                return at >= -60 and not (creds[cid] and at > 60)
+            when = f"resolveTime = now{at:+d} min" if at else "resolveTime = nil"
+            if kind == "aresolve":
+                cid = op["id"]
+                stats[f"resolve:{'revoked' if cid in stored else 'not-revoked'}:{'stored' if cid in creds else 'absent'}:at={'nil' if not at else ('past' if at < 0 else 'future')}"] += 1
+                if cid in stored and cid in creds and line != "aresolve cred=true revoked":
+                    report("C11:resolve-presents-revoked-credential-as-valid" if line == "aresolve cred=true ok" else "C11:resolve-of-revoked-credential-not-answered-revoked",
+                           f"{cid} has an accepted revocation; vcr.Resolve ({when}) answers '{line}' (a received revocation counts for every resolveTime)", i)
+                if cid not in creds and line != "aresolve cred=false notfound":
+                    report("C11:resolve-answers-for-a-credential-not-in-the-store", f"{cid}: {line}", i)
+                if cid in creds and cid not in stored:
+                    want = "aresolve cred=true untrusted" if cid.split("#")[0] not in trusted else ("aresolve cred=true ok" if valid_at(cid) else "aresolve cred=false err:not-valid-at-time")
+                    if line != want:
+                        report("C11:revoked-without-revocation" if "revoked" in line else "C11:resolve-answer-unexpected", f"{cid} ({when}): expected '{want}', got '{line}'", i)
+            else:
+                m = re.fullmatch(r"asearch \[(.*)\]", line)
+                if not m:
+                    report("C11:search-failed", line[:200], i)
+                    continue
+                got = set(m.group(1).split())
+                stats[f"search:{'allow-untrusted' if op.get('untrusted') else 'trusted-only'}:at={'nil' if not at else ('past' if at < 0 else 'future')}:revoked-in-store={len([c for c in creds if c in stored])}"] += 1
+                for cid in sorted(got & stored):
+                    report("C11:search-returns-revoked-credential", f"{cid} has an accepted revocation; vcr.Search ({when}, allowUntrusted={bool(op.get('untrusted'))}) returns it", i)
+                want = {c for c in creds if c not in stored and (op.get("untrusted") or c.split("#")[0] in trusted) and valid_at(c)}
+                if got - stored != want:
+                    report("C11:search-result-unexpected", f"({when}) expected {sorted(want)}, got {sorted(got)}", i)
         elif kind == "adeliver":
             honest = op["subject"].split("#")[0] == op["issuer"]
             fault = op.get("fault", "")
@@ -722,7 +765,7 @@ def run_verifier_harness(ctx):
 
 def run(ctx):
     facts = ctx.facts()
-    thms = ctx.build_and_audit(["NutsProofs.Props.C11", "NutsProofs.Props.C11Wire", "NutsProofs.Props.C11ValidAt", "NutsProofs.Props.C11Rebase", "NutsProofs.Props.C11CredStatus", "NutsProofs.Props.C11Reprocess"])
+    thms = ctx.build_and_audit(["NutsProofs.Props.C11", "NutsProofs.Props.C11Wire", "NutsProofs.Props.C11ValidAt", "NutsProofs.Props.C11Rebase", "NutsProofs.Props.C11CredStatus", "NutsProofs.Props.C11Reprocess", "NutsProofs.Props.C11Resolve"])
     for r in REQUIRED:
         if not any(t.endswith("Props." + r) for t in thms):
             ctx.oblige("thm-present:" + r, False, "theorem missing or its module does not build")
